@@ -5,7 +5,8 @@ CFG = {
                  "AddrLock model (manager level) and of the WalletRestart model (wallet requests) + two differential engines: "
                  "addrmgr-lock (a second Manager opened on the same database after every bracket) and wallet-restart (a second "
                  "wallet.Wallet opened on a copy of the database file after every request); both inject rollbacks and COMMIT "
-                 "failures through a walletdb decorator",
+                 "failures through a walletdb decorator; third engine addrmgr-derive (C03's): the derivation info an issued address "
+                 "reports (path and master key fingerprint) is the same on a cache hit, after MarkUsed and after reopening the manager",
     "level_text": "C08 is stated as: at every commit boundary every query of the property answers the same on the running "
                   "manager and on a manager freshly opened on the same database. Proved in Lean from a coherence "
                   "invariant that every operation preserves inside COMMITTED brackets; rolled-back / failed-commit "
@@ -34,7 +35,7 @@ CFG = {
                          "_unfixed_importdry_address_cache state the defect for a tree before that commit, and reverting it yields the oracle keys "
                          "ImportAccountDryRun.unlock-fails-unlike-restart / ImportAccountDryRun.address-cache-not-reverted.",
     "lean_props": ["BtcwVerif.Props.C08", "BtcwVerif.Props.C08w"],
-    "engines": ["addrmgr-lock", "wallet-restart"],
+    "engines": ["addrmgr-lock", "wallet-restart", "addrmgr-derive"],
     "trusted_base": COMMON_TB + [
         "hand-written model BtcwVerif/Model/AddrLock.lean (tied by differential run)",
         "bbolt transaction atomicity and OnCommit semantics (C11's assumption): commit handlers run only after a successful commit",
